@@ -43,7 +43,8 @@ def build_one(name, cfg, flags=(), tag=""):
     r = subprocess.run(cmd[:-3] + ["-c", "-o", obj, cpp], capture_output=True, text=True, env=env)
     if r.returncode != 0:
         raise ToolError("compile failed for %s.%s:\n%s" % (name, cfg, r.stderr[-4000:]))
-    r = subprocess.run(["g++", "-o", base, obj] + [f for f in flags if f.startswith("-fsanitize")], capture_output=True, text=True)
+    libs = ["-lboost_serialization"] if d.serial and not cfg.startswith("mp11") else []
+    r = subprocess.run(["g++", "-o", base, obj] + [f for f in flags if f.startswith("-fsanitize")] + libs, capture_output=True, text=True)
     if r.returncode != 0:
         raise ToolError("link failed for %s.%s:\n%s" % (name, cfg, r.stderr[-2000:]))
     return base, time.time() - t0
@@ -59,8 +60,8 @@ def build_many(pairs, flags=(), tag=""):
 # ---------------------------------------------------------------- scripts
 class ScriptGen:
     """seeded random walks over the API of a definition"""
-    def __init__(self, d, seed, throws=0.15, subs=0.25, enq=0.1, drain=0.1, restart=0.05, maxcalls=7, maxplan=12, startsubs=0.1, copy=0.0, ninst=1, evbias=0.0, destroy=0.0):
-        self.copy = copy; self.ninst = ninst; self.evbias = evbias; self.destroy = destroy
+    def __init__(self, d, seed, throws=0.15, subs=0.25, enq=0.1, drain=0.1, restart=0.05, maxcalls=7, maxplan=12, startsubs=0.1, copy=0.0, ninst=1, evbias=0.0, destroy=0.0, saveload=0.0):
+        self.copy = copy; self.ninst = ninst; self.evbias = evbias; self.destroy = destroy; self.saveload = saveload
         self.hot = sorted(set(e for m in d.machines.values() for st in m["states"].values() for e in st["defers"] if e in d.events))
         self.d = d; self.rnd = random.Random(seed); self.throws = throws; self.subs = subs; self.enq = enq
         self.drain = drain; self.restart = restart; self.maxcalls = maxcalls; self.maxplan = maxplan; self.startsubs = startsubs
@@ -102,6 +103,9 @@ class ScriptGen:
                 L.append("destroy %d" % i); del running[i]; continue
             if not running[i]:
                 L.append("start %d %s %s" % (i, self.gv(), self.plan(False, self.startsubs))); running[i] = True; continue
+            if self.saveload and self.ninst > len(running) and self.rnd.random() < self.saveload:
+                j = min(k for k in range(self.ninst) if k not in running)
+                L.append("saveload %d %d %s" % (i, j, self.rnd.choice(["text", "binary"]))); running[j] = True; continue
             if self.copy and r < self.copy and self.ninst > 1:
                 j = self.rnd.choice([k for k in range(self.ninst) if k != i])
                 # copy-construct only into a slot that holds no object yet (an object must not be destroyed while closures may refer to it)
